@@ -161,6 +161,10 @@ def esRate (buf : Bytes) : R (Res Nat) := do
       pure (.ok v)
   else pure (.error .fieldNotPresent)
 
+/-- `EsRate::bytes_per_second`: `self.0 * 50` on `u32` (overflow checks on: a wrapped product would
+panic; `esRate` only builds values below `2^22`, see `Ts.Props.C14.bytes_per_second_no_overflow`) -/
+def bytesPerSecond (v : Nat) : Nat := v * 50
+
 inductive Trick where
   | fastForward (fieldId : Nat) (intra : Bool) (freq : Nat)
   | slowMotion (rep : Nat)
